@@ -5,20 +5,24 @@ NOTE = ("chkpnt()/chkpnt1() of src/echsd.c with the real serialiser of src/evica
         "the invariant 'live queue file = old complete or new complete' is asserted after every system call, i.e. for a "
         "crash at every system-call boundary.")
 ASSUMPTIONS = ["rename(2) is atomic; a crash between system calls leaves what the completed calls left",
-               "vsnprintf stand-in (arbitrary byte counts 0..24); one fault per checkpoint; <= 2 tasks, one dirty user",
+               "vsnprintf stand-in (constant byte count per obligation); one fault per checkpoint; <= 2 tasks, one dirty user",
                "the reload half (a daemon started afterwards schedules exactly the tasks of the last checkpoint) needs the text parser on the produced bytes: outside"]
 def ob(name, defs, **kw):
     o = dict(name=name, src='h_chkpnt.c', defs=defs + ['ECHSE_VERIF_FDBUF=128U'], units=['src/evical.c', 'src/task.c'], incl=['src/echsd.c'], replay_units='all', replay_extra_units=['src/logger.c'],
              unwind=6, unwindset={'snprintf.*': 9, 'openat.*': 17, 'fdflush.*': 3, 'memcpy.*': 130, 'strlen.*': 40, 'chkpnt1.*': 6},
              solver='cadical', timeout=1500, mem_gb=24, object_bits=12, checks=['--bounds-check'], replace_calls={'memcpy': 'c06_memcpy'},
-             allow_nobody=['obint_name', 'echs_log', 'echs_errlog', 'epoch_to_echs_instant', 'dt_strf_ical', 'idiff_strf', 'echs_evstrm_seria'],
+             allow_nobody=['echs_log', 'echs_errlog', 'epoch_to_echs_instant', 'echs_evstrm_seria'],
              enc=['chkpnt', 'chkpnt1', 'echs_icalify_init', 'echs_task_icalify', 'send_task', 'send_ical_hdr', 'send_ical_ftr', 'echs_icalify_fini', 'fdprintf', 'fdwrite', 'fdflush'],
              sym='which system call fails and how, number of tasks, their owners, the dirty user', bounds='<= 2 tasks, fault among the first 12 system calls',
              outside='reload of the written file; chkpnta() (all-users dump after 16 dirty users)',
-             stubs=['file-system stand-in (openat/write/close/renameat/unlinkat) in the harness', 'snprintf stand-in for the file-name format', 'vsnprintf stand-in: arbitrary byte count 0..24 per call, no content', 'memcpy of the buffered writer: bounds obligation kept, content dropped', 'hook ECHSE_VERIF_FDBUF=128 (output buffer of 128 instead of 4096 bytes: more flushes per checkpoint)'])
+             stubs=['file-system stand-in (openat/write/close/renameat/unlinkat) in the harness', 'snprintf stand-in for the file-name format', 'vsnprintf stand-in: a constant byte count per call (VSN), no content', 'obint_name/dt_strf_ical/idiff_strf stand-ins of constant length', 'memcpy of the buffered writer: bounds obligation kept, content dropped', 'hook ECHSE_VERIF_FDBUF=128 (output buffer of 128 instead of 4096 bytes: more flushes per checkpoint)'])
     o.update(kw)
     return o
-OBLIGATIONS = [
-    ob('chkpnt_single_fault', ['KF_C06_1'], excludes=['C06-1']),
-    ob('kf_write_error_ignored', [], expect='kf', kf='C06-1'),
+CFGS = [(2, 1, 1), (2, 1, 2), (2, 2, 1), (2, 2, 2), (1, 1, 1), (1, 2, 1), (0, 1, 1)]
+def cfg(n, a, b, vsn=8, fmax=12, **kw):
+    return ob('chkpnt_fault_%dtasks_own%d%d_vsn%d' % (n, a, b, vsn), ['CFG_NTASK=%d' % n, 'CFG_OWN0=%d' % a, 'CFG_OWN1=%d' % b, 'VSN=%d' % vsn, 'FAULTMAX=%d' % fmax], excludes=['C06-1'],
+              bounds='%d task(s) owned by users %d/%d, user 1 dirty; every formatted field %d bytes; the failing system call is any of the first %d (or none), failing outright or short' % (n, a, b, vsn, fmax), **kw)
+OBLIGATIONS = [cfg(*c) for c in CFGS] + [cfg(*c, vsn=40, fmax=30, tiers=('thorough',), timeout=3000) for c in CFGS] + [
+    ob('kf_write_error_ignored', ['CFG_NTASK=2', 'CFG_OWN0=1', 'CFG_OWN1=1', 'VSN=8'], expect='kf', kf='C06-1', witness=False),
+    ob('chkpnt_single_fault', [], excludes=['C06-1'], tiers=('thorough',), timeout=3400),
 ]
